@@ -195,6 +195,7 @@ class OperEngine(c01.CallEngine):
         tags.append('replayed')
       except Exception as e:  # pylint: disable=broad-except
         fails.append(('operative-text-does-not-replay', '%s: %s; text %r' % (type(e).__name__, e, text)))
+    fails = m.readback_fails() + fails
     return {'obs': obs, 'fails': fails[:3], 'nontrivial': nontrivial, 'tags': tags}
 
 
